@@ -1,5 +1,6 @@
 """C03 — conversions are exact and refuse non-conformable targets."""
 from fractions import Fraction
+import json, os
 from tools import vlib
 from checks.common import frac
 
@@ -53,8 +54,19 @@ def run(c):
     st = vlib.eval_stream(c, "gen-c03", independent=True, judge=judge)
     if st is None:
         return
+    # what the conformance error says: the reciprocal case is flagged exactly when it is one, otherwise a
+    # suggested factor really makes the two sides conformable (model-independent, computed by the harness)
+    if c.run_harness("c03-suggest"):
+        ss = json.load(open(os.path.join(c.work, "suggest_stats.json")))
+        for line in open(os.path.join(c.work, "suggest_oracle.jsonl")):
+            v = json.loads(line)
+            c.violation("suggestion:" + v["query"], "input %r: conformance error %s (suggestions %s; left %s, right %s)" % (v["query"][:200], v["why"], v["suggestions"], v["left"], v["right"]),
+                        {"kind": "input", "input": v["query"], "history": [v["query"]], "detail": v}, found=True)
+            if len(c.violations) > 40:
+                break
+        st["conformance_error_texts"] = ss
     c.coverage.update({
-        "rule": "ordered pairs of conformable database units (sampled in quick, exhaustive in thorough) with random coefficients; random compound sources/targets (products, quotients, powers, constants, prefixes, plurals, inline `name = expr`); oracle: x*t = v exactly over the rationals / conformance error when dimensionalities differ",
+        "rule": "ordered pairs of conformable database units (sampled in quick, exhaustive in thorough) with random coefficients; random compound sources/targets (products, quotients, powers, constants, prefixes, plurals, inline `name = expr`); oracle: x*t = v exactly over the rationals / conformance error when dimensionalities differ, which flags the reciprocal case exactly when the product of the two units is dimensionless and otherwise suggests a factor that makes the sides conformable (read back through the quantity table)",
         "samples": st.get("samples", [])[:8], "input_distribution": st, "exhaustive": c.thorough,
     })
 
